@@ -202,7 +202,7 @@ class YAMLFormatter(GraphtageFormatter):
 
         """
         # Treat the container like a list
-        list_node = ListNode(node.children())
+        list_node = ListNode.without_parenting(node.children())
         self.print(printer, list_node)
 
 
